@@ -3,7 +3,7 @@
 (* Trace specification for the mixture models: posteriors (C01), mixture   *)
 (* weights (C08/C09), initializers (C01).                                  *)
 (***************************************************************************)
-EXTENDS Posterior, Weights, TraceKit
+EXTENDS Posterior, Weights, Model, TraceKit
 VARIABLES l, verdicts
 vars == <<l, verdicts>>
 SL == 64
@@ -115,11 +115,33 @@ WeightXChecks(r) ==
                                 ELSE outAt(o)[1] * norm(o) = outAt(o)[2] * S(o))
                           ELSE outAt(o)[1] * (cnt(o) * r.affden) = outAt(o)[2] * S(o)>> >>
 
+(* ---- twin : two models that must be related (C04 same, C05 class permutation, C06 slice, C20 split) ---- *)
+\* r.rel in {"same", "perm", "slice"}; r.A, r.B : models; r.pi (perm), r.lead (slice); r.slack
+TwinChecks(r) ==
+  IF r.exc # "" THEN << <<r.exc_clause, FALSE>> >>
+  ELSE IF Names(r.A) # Names(r.B) THEN << <<"fields", FALSE>> >>
+  ELSE IF ~(\A i \in 1..Len(r.A) : FieldFinite(r.A[i])) \/ ~(\A i \in 1..Len(r.B) : FieldFinite(r.B[i]))
+       THEN << <<"finite", FALSE>> >>
+  ELSE [i \in 1..Len(r.A) |->
+         LET fa == r.A[i] fb == Field(r.B, fa.name)
+             cax == FieldClassAx(fa, r.integration, r.wca)
+         IN  <<fa.name,
+               CASE r.rel = "same" -> SameField(fa, fb, r.slack)
+                 [] r.rel = "perm" -> PermField(fa, fb, cax, r.pi, r.slack)
+                 [] r.rel = "slice" -> SliceField(fa, fb, r.lead, r.slack)>>]
+\* non-trivial: perm: pi not the identity and the classes differ; slice: >= 2 differing slices (driver flag
+\* cross-checked: the compared field has > 1 element); same: the transformation was non-trivial (driver)
+TwinNT(r) == /\ r.exc = "" /\ Len(r.A) > 0
+             /\ (r.rel = "perm" => \E k \in 1..Len(r.pi) : r.pi[k] # k - 1)
+             /\ \E i \in 1..Len(r.A) : Len(r.A[i].t.data) > 1 /\ \E j \in 2..Len(r.A[i].t.data) : r.A[i].t.data[j] # r.A[i].t.data[1]
+
 Checks(r) == CASE r.kind = "bayesx" -> BayesXChecks(r) [] r.kind = "posterior" -> PostChecks(r)
                [] r.kind = "init" -> InitChecks(r) [] r.kind = "flag" -> FlagChecks(r)
                [] r.kind = "weightx" -> WeightXChecks(r)
+               [] r.kind = "twin" -> TwinChecks(r)
 NT(r) == CASE r.kind = "posterior" -> PostNT(r)
            [] r.kind = "bayesx" -> r.exc = "" /\ Len(r.w) >= 2
+           [] r.kind = "twin" -> TwinNT(r)
            [] OTHER -> r.exc = ""
 Init == l = 1 /\ verdicts = <<>>
 Next == /\ l <= Len(Trace)
